@@ -929,6 +929,7 @@ func (x *Exec) runLoop(st *State, ls *loopSpec, k cont) {
 	}
 	pos := ls.node.Pos()
 	x.anchor(st, fmt.Sprintf("before loop %d", ls.ord), ls.node.Pos(), ls.ord)
+
 	// (1) invariants hold on entry
 	if lc != nil {
 		for i, inv := range lc.Invariants {
@@ -1026,8 +1027,13 @@ func (x *Exec) runLoop(st *State, ls *loopSpec, k cont) {
 		}
 	}
 	x.brk = append(x.brk, func(s *State) {
+		saved := x.ordStack
+		if n := len(saved); n > 0 && saved[n-1] == ls.ord {
+			x.ordStack = saved[:n-1]
+		}
 		x.anchor(s, fmt.Sprintf("after loop %d", ls.ord), ls.bodyPos, ls.ord)
 		k(s)
+		x.ordStack = saved
 	})
 	x.cont = append(x.cont, backEdge)
 	nb, nc := len(x.brk), len(x.cont)
@@ -1035,7 +1041,9 @@ func (x *Exec) runLoop(st *State, ls *loopSpec, k cont) {
 		ls.pre(b)
 	}
 	x.anchor(b, fmt.Sprintf("in loop %d", ls.ord), ls.bodyPos, ls.ord)
+	x.ordStack = append(x.ordStack, ls.ord)
 	x.block(b, ls.body, backEdge)
+	x.ordStack = x.ordStack[:len(x.ordStack)-1]
 	if len(x.brk) != nb || len(x.cont) != nc {
 		fail("internal: unbalanced control stack")
 	}
@@ -1247,6 +1255,9 @@ func (x *Exec) anchor(st *State, where string, pos token.Pos, ord int) {
 	if x.contract == nil {
 		return
 	}
+	if ord == 0 && len(x.ordStack) > 0 {
+		ord = x.ordStack[len(x.ordStack)-1]
+	}
 	for i, a := range x.contract.Anchors {
 		if a.Anchor != where {
 			continue
@@ -1260,6 +1271,27 @@ func (x *Exec) anchor(st *State, where string, pos token.Pos, ord int) {
 			}
 		case "use":
 			x.useLemma(st, env, a.Clause, where, i)
+		case "assume":
+			// explicitly trusted facts (meta-theorems such as the pool contract M1); listed in the evidence
+			st.assume(asTerm(x.evalSpec(env, a.Clause.E)), "ASSUMED:"+where)
+			x.eng.assume(fmt.Sprintf("%s: assumed %s: %s", x.key, where, a.Clause.Src))
+		}
+	}
+	// pinned (property-level) assertions at the same anchor
+	for _, pb := range x.pinned {
+		for i, a := range pb.Anchors {
+			if a.Anchor != where || a.Kind != "assert" {
+				continue
+			}
+			env := x.specEnvAt(st, pos, ord)
+			env.lets = append(append([]LetDef{}, env.lets...), pb.Lets...)
+			g := asTerm(x.evalSpec(env, a.Clause.E))
+			for prop := range pb.Props {
+				for j, cj := range splitConj(g) {
+					o := x.oblige(st, "pinned", fmt.Sprintf("%s/assert/%s#%d.%d", prop, strings.ReplaceAll(where, " ", "-"), i+1, j+1), cj, token.NoPos, a.Clause.Src)
+					o.Prop = prop
+				}
+			}
 		}
 	}
 }
